@@ -8,6 +8,8 @@ package main
 import (
 	"context"
 	"fmt"
+	"os"
+	"runtime"
 	"sync"
 	"time"
 
@@ -133,9 +135,14 @@ func runPausedPair(d *dag.DAG, sel datamodel.Node, tb *tables, inL, inR func(int
 		}
 		// the request is parked a moment after the hook returned: wait for that condition
 		deadline := time.Now().Add(15 * time.Second)
+		tries := 0
 		for {
 			err := req.Unpause(ctx, id)
+			tries++
 			if err == nil || time.Now().After(deadline) {
+				if os.Getenv("DLOADER_DEBUG") != "" {
+					fmt.Fprintf(os.Stderr, "unpause: tries=%d err=%v safe=%v block=%d\n", tries, err, safe, block)
+				}
 				break
 			}
 			select {
@@ -144,6 +151,11 @@ func runPausedPair(d *dag.DAG, sel datamodel.Node, tb *tables, inL, inR func(int
 			}
 		}
 		res = <-donec
+		if res.o.hang && os.Getenv("DLOADER_DEBUG") != "" {
+			buf := make([]byte, 1<<20)
+			n := runtime.Stack(buf, true)
+			fmt.Fprintf(os.Stderr, "HANG after pause: visits=%d\n%s\n", len(res.o.visits), buf[:n])
+		}
 	}
 	o := res.o
 	o.store = storeKeys(d, world.Nodes[0].Store)
